@@ -200,3 +200,28 @@ Definition pgp_dom_cr (hs ps ss : list str) : Prop :=
 (* s begins with the signed-message marker as a complete first line *)
 Definition marker_first_line (s : str) : Prop :=
   s = BEGIN_SIGNED \/ (exists r, s = BEGIN_SIGNED ++ LF :: r) \/ (exists r, s = BEGIN_SIGNED ++ CR :: LF :: r).
+
+(* what the property prescribes for the message cut inside line k (0-based), after the
+   characters p of that line, q being the rest of the line (its "\n" not included):
+   p empty: a cut at the line boundary; q empty: the whole line is there, only its "\n" is
+   missing, which lines() does not need; otherwise the incomplete line is never a marker, so
+   the cut counts as one made before line k - except in the very first line, where the text is
+   not a signed message at all and is passed through *)
+Definition cutc_result (x : str) (k : nat) (p q : str) (hs ps : list str) : res (str * option str) :=
+  match p with
+  | [] => cut_result k hs ps
+  | _ :: _ =>
+    match q with
+    | [] => cut_result (S k) hs ps
+    | _ :: _ => match k with O => Ok (x, None) | S _ => cut_result k hs ps end
+    end
+  end.
+
+(* executable form of pgp_dom (proofs/PgpP.v: pgp_domb_ok), used to exhibit inhabitants *)
+Definition line_okb (l : str) : bool :=
+  forallb (fun c => negb (c =? LF)%N) l && negb (last l 0 =? CR)%N.
+Definition pgp_domb (hs ps ss : list str) : bool :=
+  forallb line_okb (hs ++ ps ++ ss) &&
+  forallb (fun l => match l with [] => false | _ :: _ => true end) hs &&
+  forallb (fun l => negb (hd 0 l =? DASH)%N) ps &&
+  forallb (fun l => negb (str_eqb l END_SIG)) ss.
